@@ -231,4 +231,21 @@ def joinDerive (a b : CanDerive) : CanDerive :=
 
 def compDerive (members : List CanDerive) : CanDerive := members.foldl joinDerive .yes
 
+/-- The head of `CannotDerive::constrain_type` (ir/analysis/derive.rs), in the order of the code:
+a non-allow-listed item answers `blocklisted_type_implements_trait`; an item excluded by name answers
+`No`; an *opaque* item answers by its layout alone (`Yes`, or `No` for a union when the trait cannot be
+derived for Rust unions) without looking at what it refers to; otherwise the kind-specific rule `rest`. -/
+def constrainTypeHead (allowlisted : Bool) (blocklistAnswer : CanDerive) (notByName isOpq : Bool)
+    (unionNo : Bool) (rest : CanDerive) : CanDerive :=
+  if !allowlisted then blocklistAnswer
+  else if notByName then .no
+  else if isOpq then (if unionNo then .no else .yes)
+  else rest
+
+/-- A use of a type `T` goes through a `ResolvedTypeRef` item `r` (its own item: own annotations, own
+location).  `r` is opaque iff `T` is (`Type::is_opaque` follows the reference); its kind-specific rule
+is the join over its target, i.e. `T`'s answer. -/
+def deriveThroughRef (rAllowlisted : Bool) (tOpaque : Bool) (tAnswer : CanDerive) : CanDerive :=
+  constrainTypeHead rAllowlisted .no false tOpaque false tAnswer
+
 end BindgenModel.Blocklist
